@@ -395,3 +395,58 @@ def digest_width(repo, res):
                         res.fail(key, f"{f.key} keeps only {width} hex digits ({4 * width} bits) of a digest used in "
                                  "generated identifiers: distinct quadrature rules collide (triangle default degree 15 "
                                  "and 26 both end in b76 -> duplicate `weights_b76`)", m.line(n))
+
+
+@rule(
+    "RULE-SCOPED-NAMES",
+    ["C19", "C11"],
+    "identifier families that are instantiated once per quadrature rule at kernel scope carry the rule's "
+    "id: the piecewise (sp_) and varying (sv_) temporaries of the integral generator, the weights table "
+    "and the element-table names; temporaries cached across rules (fw) are keyed by the rule",
+    min_instances=5,
+)
+def rule_scoped_names(repo, res):
+    ig = repo.mod("ffcx.codegeneration.integral_generator")
+    for q, required in (("IntegralGenerator.generate_piecewise_partition", True), ("IntegralGenerator.generate_varying_partition", True)):
+        f = ig.func(q)
+        res.functions.add(f.key)
+        key = f"{f.key}:name-has-rule-id"
+        res.ob(key)
+        rule_param = f.params[1]
+        calls = [c for c in calls_in(f.node) if (call_name(c) or "").endswith("generate_partition")]
+        if len(calls) != 1:
+            raise AnalysisError(f"{q}: generate_partition call not found")
+        sl = Slicer(f.node)
+        t = sl.text(calls[0].args[0])
+        if not re.search(rf"\{{{rule_param}\.id\(\)\}}", t):
+            res.fail(key, f"{q} names its temporaries `{ast.unparse(sl.defs.get(getattr(calls[0].args[0], 'id', ''), [calls[0].args[0]])[0])[:70]}` "
+                     "without the quadrature rule's id: the counter restarts for every rule, so a kernel with two rules "
+                     "(dx(degree=2) + dx(degree=4)) declares the same identifier twice", ig.line(f.node))
+    f = ig.func("IntegralGenerator.generate_block_parts")
+    key = f"{f.key}:fw-cache-key"
+    res.ob(key)
+    src = ast.unparse(f.node)
+    m = re.search(r"(\w+) = \(([^\n]*)\)\n\s+\w+, \w+ = self\.get_temp_symbol\('fw', \1\)", src)
+    if not m or f.params[1] not in m.group(2) or "factor_index" not in m.group(2):
+        res.fail(key, "the fw temporaries are not cached per (quadrature rule, factor): a value computed with one rule's weights is "
+                 "reused for another rule", ig.line(f.node), props=("C11", "C19"))
+    sm = repo.mod("ffcx.codegeneration.symbols")
+    f = sm.func("FFCXBackendSymbols.weights_table")
+    key = f"{f.key}:name-has-rule-id"
+    res.ob(key)
+    src = ast.unparse(f.node)
+    if len(re.findall(rf"weights_\{{{f.params[1]}\.id\(\)\}}", src)) < 2:
+        res.fail(key, "weights tables are not named (and cached) by the rule id", sm.line(f.node))
+    et = repo.mod("ffcx.ir.elementtables")
+    f = et.func("generate_psi_table_name")
+    key = f"{f.key}:name-has-rule-id"
+    res.ob(key)
+    if not re.search(rf"_Q\{{{f.params[0]}\.id\(\)\}}", ast.unparse(f.node)):
+        res.fail(key, "element table names do not end in the quadrature rule id: tables of different rules collide", et.line(f.node))
+    # name components all present
+    key = f"{f.key}:components"
+    res.ob(key)
+    src = ast.unparse(f.node)
+    for comp in ("FE{element_counter:d}", "_C{flat_component:d}", "'_D' + ''.join", "averaged]", "entity_type]"):
+        if comp not in src:
+            res.fail(key, f"table name lacks the component `{comp}`: tables of different terminals share a name", et.line(f.node))
